@@ -31,7 +31,7 @@ from hpstatic.xrnorm import atom_rewrite
 from .common import SCATTERER, self_attr_stores, path_has, norm_cond, as_difference, is_sum
 from hpstatic.logic import cmp_is
 
-MUTATION_TARGETS = {'holopy/scattering/scatterer/scatterer.py': ['in_domain', 'index_at', 'contains', 'translated', '__init__', 'find_bounds'], 'holopy/scattering/scatterer/sphere.py': ['indicators', '__init__'], 'holopy/scattering/scatterer/ellipsoid.py': ['indicators'], 'holopy/scattering/scatterer/csg.py': ['in_domain', 'translated'], 'holopy/scattering/scatterer/spherecluster.py': ['overlaps', 'largest_overlap', '__init__', 'add'], 'holopy/core/math.py': ['cartesian_distance']}
+MUTATION_TARGETS = {'holopy/scattering/scatterer/scatterer.py': ['in_domain', 'index_at', 'contains', 'translated', '__init__', 'find_bounds', 'bound_union', '_voxel_coords', 'voxelate', 'voxelate_domains'], 'holopy/scattering/scatterer/sphere.py': ['indicators', '__init__'], 'holopy/scattering/scatterer/ellipsoid.py': ['indicators'], 'holopy/scattering/scatterer/csg.py': ['in_domain', 'translated'], 'holopy/scattering/scatterer/spherecluster.py': ['overlaps', 'largest_overlap', '__init__', 'add'], 'holopy/core/math.py': ['cartesian_distance']}
 
 LEVEL = 'other'
 META = dict(
@@ -68,6 +68,7 @@ def run(check, prog):
     csg_motion(check, prog)
     bounds_search(check, prog)
     bounds_union(check, prog)
+    voxel_grid(check, prog)
     domain_count(check, prog)
     # translating a scatterer translates its region: nothing remembered on the
     # object survives the copy that translated() starts from (shared with C19)
@@ -482,6 +483,79 @@ def bounds_union(check, prog):
                   'empty box at the origin', prog.loc(qi, fdi),
                   fail_detail='self.bound is assigned %s' % [
                       show(e['value'])[:80] for e in stores])
+
+
+def voxel_grid(check, prog):
+    """K10: a voxelisation samples the scatterer on the grid that spans its
+    bounding box with the requested spacing: along axis k from bounds[k][0] to
+    bounds[k][1] in steps of spacing[k] (one number standing for all three), the
+    three coordinate arrays joined in x, y, z order as the last axis; voxelate
+    reads the index and voxelate_domains the domain at exactly those points.
+    (Convergence of the voxel volume is numerical; that the grid covers the box at
+    the requested pitch is its structural part.)"""
+    from .common import list_builder
+    S_ = SC + 'scatterer.Scatterer.'
+    q = S_ + '_voxel_coords'
+    fd = prog.func(q)
+    loc = prog.loc(q, fd)
+    it = Interp(prog, max_depth=0)
+    v = it.analyze(q).ret
+    me, sp = sym('self'), sym(fd.args.args[1].arg)
+    bounds = intern(('attr', me, 'bounds'))
+    ok = v[0] == 'call' and v[1] == 'numpy.concatenate' and v[2] and (
+        (len(v[2]) > 1 and v[2][1] in (num(3), num(-1))) or
+        dict(v[3]).get('axis') in (num(3), num(-1)))
+    detail = 'returns %s' % show(v)[:120]
+    if ok:
+        outer = list_builder(v[2][0])
+        ok = outer is not None and outer[0][0] == 'idx' and outer[0][1][0] == 'elem' \
+            and outer[0][1][1] == outer[1] and outer[0][2] == (
+                'tuple', (('const', Ellipsis), ('extref', 'numpy.newaxis')))
+        grid = outer[1] if ok else None
+        ok = ok and grid[0] == 'idx' and grid[1] == ('extref', 'numpy.mgrid')
+        if ok:
+            sl = list_builder(grid[2])
+            ok = sl is not None and sl[0][0] == 'call' and sl[0][1] == 'slice' and \
+                len(sl[0][2]) == 3 and sl[1][0] == 'call' and sl[1][1] == 'zip' and \
+                len(sl[1][2]) == 2 and sl[1][2][0] == bounds
+            if ok:
+                lo, hi, st = sl[0][2]
+                spx = sl[1][2][1]
+                k = lo[1][2] if lo[0] == 'idx' and lo[1][0] == 'elem' else None
+                ok = lo == ('idx', ('elem', bounds, k), num(0)) and \
+                    hi == ('idx', ('elem', bounds, k), num(1)) and \
+                    st == ('elem', spx, k)
+                detail = 'slices %s' % show(sl[0])[:120]
+                if ok:
+                    # one number stands for all three axes
+                    alts = []
+
+                    def leaves(t):
+                        if t[0] == 'ite':
+                            leaves(t[2])
+                            leaves(t[3])
+                        else:
+                            alts.append(t)
+                    leaves(spx)
+                    ok = sp in alts and any(
+                        t != sp and any(x == sp for x in subterms(t)) and any(
+                            x == num(3) for x in subterms(t)) for t in alts)
+                    detail = 'spacing per axis %s' % show(spx)[:120]
+    check.require(ok, 'K10-voxel-grid', 'Scatterer._voxel_coords',
+                  'mgrid[slice(bounds[k][0], bounds[k][1], spacing[k]) for k = x, y, z], '
+                  'joined along a new last axis', loc, fail_detail=detail)
+    for m, reader in (('voxelate', 'index_at'), ('voxelate_domains', 'in_domain')):
+        qm = S_ + m
+        fdm = prog.func(qm)
+        itm = Interp(prog, max_depth=0)
+        r = itm.analyze(qm).ret
+        spm = sym(fdm.args.args[1].arg)
+        coords = intern(('call', ('attr', me, '_voxel_coords'), (spm,), ()))
+        okm = r[0] == 'call' and r[1] == ('attr', me, reader) and r[2] and \
+            r[2][0] == coords
+        check.require(okm, 'K10-voxel-grid', 'Scatterer.' + m,
+                      '%s at the points of _voxel_coords(spacing)' % reader,
+                      prog.loc(qm, fdm), fail_detail='returns %s' % show(r)[:120])
 
 
 def own_member_list(check, prog):
